@@ -33,6 +33,8 @@ THEOREMS = [
     "Nix.C18.C18_bump_last",
     "Nix.C18.C18_version_old_while_interrupted",
     "Nix.C18.C18_resumable",
+    "Nix.C18.C18_resumable_history",
+    "Nix.C18.C18_resumable_clean",
     "Nix.C18.C18_resumable_steps",
     "Nix.C18.C18_idempotent",
     "Nix.C18.C18_writable",
@@ -56,21 +58,24 @@ TRUSTED_EXTRA = ["harness/props/c18.py: h5py crafting of old-format files, `abst
 READY = True
 MANIFEST = {
     "level_text": "Kernel-checked theorems over a Lean model of nixio/cmd/upgrade.py (collect_tasks flattened to one "
-                  "step per file open; each step with its re-checked precondition and the points where h5py raises): "
-                  "the version bump is the last step and the only one that changes the version, so every interrupted "
-                  "state is still old; for every file and every prefix length k, re-running the upgrade after the "
-                  "first k steps gives the same file as an uninterrupted run up to the run that made fresh "
-                  "ids/timestamps (induction over the step list; visit order by a sorting argument); the result has "
-                  "no tasks left and is openable for writing, upgrading an up-to-date file is the identity; values, "
-                  "dtype, unit, definition and every per-value extra are retrievable afterwards and alias dimensions "
-                  "read the same ticks/unit/label. The model is tied to the code by differential runs on h5py-crafted "
-                  "old files with every interruption point.",
+                  "step per file open; every step with its re-checked precondition and the points where h5py raises), "
+                  "for every library version, file and interruption point: the version bump is the last step and the "
+                  "only one that changes the version, so every interrupted state is still old; re-running after any "
+                  "prefix of the steps - and after any history of interruptions - gives the same file and outcome as an "
+                  "uninterrupted run up to the invocation that made fresh ids/timestamps (what is left to collect is "
+                  "exactly the rest of the list: induction + sorted-permutation uniqueness for the visit order); the "
+                  "result has nothing left to collect, a second upgrade and a stale task list are the identity, the "
+                  "file opens for writing; when no `<name>.<extra>` name is taken no step can fail and values, dtype, "
+                  "unit, definition and every per-value extra of every property are retrievable, plain properties, "
+                  "arrays and dimension readings (alias range dimensions: ticks, unit, label) are unchanged. The model "
+                  "is tied to the code by differential runs on h5py-crafted old files with every interruption point.",
     "level_note": "Partial: interruption inside one conversion is out of scope (the property's own quantifier); "
                   "libhdf5 behaviour (visit order, creation order, durability of a closed file) is modelled and "
-                  "exercised by the correspondence, not proved. C18_content needs the hypothesis that no "
-                  "`<name>.<extra>` name is already taken (open known finding C18-extra-name-collision).",
-    "technique": "Lean 4 proof (induction over step lists, erase-homomorphism, sorted-permutation uniqueness) with "
-                 "differential correspondence on real HDF5 files and an interruption sweep",
+                  "exercised by the correspondence, not proved. The full content statement is false of the code "
+                  "(C18_content_counterexample, open known finding C18-extra-name-collision): C18_content_partial "
+                  "carries the decidable hypothesis Clean (no `<name>.<extra>` name already taken).",
+    "technique": "Lean 4 proof (induction over step lists, erase-homomorphism, run invariants, sorted-permutation "
+                 "uniqueness) with differential correspondence on real HDF5 files and an interruption sweep",
 }
 
 VSTR = h5py.string_dtype()
@@ -681,7 +686,7 @@ def _gen_section(rng, used, depth, budget, oldness, collide):
     name = _name(rng, used)
     s = {"name": name, "type": rng.choice(["t", "meta", "a.b"]), "id": _uid(rng), "props": [], "sections": []}
     pused = set()
-    npro = rng.choice([0, 1, 2, 3, 3, 4, 6, 10]) if budget[0] > 0 else 0
+    npro = rng.choice([0, 1, 2, 3, 3, 4, 5, 6, 10]) if budget[0] > 0 else 0
     last = None
     for _ in range(npro):
         if budget[0] <= 0:
@@ -753,10 +758,10 @@ def gen_spec(rng, lib, size="small", collide=False, shape=None):
     u = _uid(rng)
     fid = {"none": None, "valid": u, "empty": "", "junk": "not-an-id", "braces": "{" + u + "}",
            "hex32": u.replace("-", ""), "short": u[:-1]}[idmode]
-    budget = [{"tiny": 3, "small": 8, "large": 30}[size]]
+    budget = [{"tiny": 4, "small": 12, "large": 30}[size]]
     spec = {"version": ver, "id": fid, "sections": [], "blocks": []}
     sused, bused = set(), set()
-    for _ in range(rng.choice([0, 1, 1, 2, 3]) if size != "tiny" else rng.choice([1, 1, 2])):
+    for _ in range(rng.choice([0, 1, 1, 2, 2, 3]) if size != "tiny" else rng.choice([1, 1, 2])):
         spec["sections"].append(_gen_section(rng, sused, 1, budget, oldness, collide))
     aliasness = rng.choice([0.0, 0.4, 0.4, 0.7])
     for _ in range(rng.choice([0, 1, 1, 2])):
@@ -883,6 +888,8 @@ def run_cases(ctx, cases):
                     res[idx][1].append("stale task list, first list cut at %s: %s" % (json.dumps(hc[3]), d))
                 continue
             _, impl = impl_history(ctx, files[idx], hc[3], "%d-%d" % (idx, j))
+            if any(x["err"] for x in impl):
+                res[idx][2]["errors"] = res[idx][2].get("errors", 0) + 1
             d = compare_history(mo, impl)
             res[idx][0] += 1
             res[idx][2]["states"] += len(impl)
@@ -1052,6 +1059,7 @@ def correspondence(ctx):
             dist["step_kinds"][kd] = dist["step_kinds"].get(kd, 0) + 1
         dist["histories"] += info.get("histories", 0)
         dist["states"] += info.get("states", 0)
+        dist["errors"] += info.get("errors", 0)
         dist["stale_lists"] = dist.get("stale_lists", 0) + info.get("stale", 0)
         v = ".".join(map(str, c["spec"]["version"]))
         dist["shape"][v] = dist["shape"].get(v, 0) + 1
